@@ -1,18 +1,35 @@
 #!/bin/bash
 # tools/baseline.sh [repo-dir]: runs the repository's pinned test suite and compares with BASELINE.json stable_pass.
-# exit 0 iff every stable_pass test passed.
+# exit 0 iff every stable_pass test passed. Packages with a non-passing pinned test are re-run (up to 2 more
+# times) because concurrent test runs in the sandbox collide on fixed ports; a test counts as passing if it
+# passed in any run (the pinned list itself is "stable over 3 runs").
 R=${1:-/repo}
 export GOFLAGS=-mod=mod GOPROXY=off
 OUT=$(mktemp /tmp/baseline.XXXXXX.json)
 (cd $R && go test -json -vet=off -count=1 -timeout 25m ./... > $OUT 2>/dev/null)
-python3 - "$OUT" <<'PY'
+for try in 1 2; do
+  PK=$(python3 - "$OUT" <<'PY'
 import json,sys
-passed=set();failed=set()
+passed=set()
 for l in open(sys.argv[1]):
     try: e=json.loads(l)
     except: continue
-    if e.get('Test') and e.get('Action') in('pass','fail'):
-        (passed if e['Action']=='pass' else failed).add(e['Package']+'::'+e['Test'])
+    if e.get('Test') and e.get('Action')=='pass': passed.add(e['Package']+'::'+e['Test'])
+sp=set(json.load(open('/root/.vp/BASELINE.json'))['stable_pass'])
+print(' '.join(sorted({m.split('::')[0] for m in sp-passed})))
+PY
+)
+  [ -z "$PK" ] && break
+  echo "baseline: retry $try of: $PK"
+  (cd $R && go test -json -vet=off -count=1 -timeout 25m $PK >> $OUT 2>/dev/null)
+done
+python3 - "$OUT" <<'PY'
+import json,sys
+passed=set()
+for l in open(sys.argv[1]):
+    try: e=json.loads(l)
+    except: continue
+    if e.get('Test') and e.get('Action')=='pass': passed.add(e['Package']+'::'+e['Test'])
 sp=set(json.load(open('/root/.vp/BASELINE.json'))['stable_pass'])
 missing=sorted(sp-passed)
 print(f"baseline: stable_pass={len(sp)} passed_now={len(passed&sp)} missing_or_failed={len(missing)}")
